@@ -357,3 +357,33 @@ def check(ctx):
         ctx.check(tm_store.lineno > last_msg, opt, tm_store, "termination_msg stored after all stopping tests", "optim_state['termination_msg'] is stored before a later stopping test can change the message", construct="termination_msg store order")
     ctx.assume("implicit exceptions are not modelled; the user's target and constraint functions terminate")
     ctx.assume("liveness (a search spree implies evaluations) is value dependent and not decided; R3-R5 are its necessary conditions")
+
+
+def check_thorough(ctx):
+    """bounded enumeration of acyclic paths through the evaluating loops; each
+    path is re-checked to pass the budget exit (R3) and, in the search step, the
+    search_count increment (R5)."""
+    from ..thorough import loop_path_stats
+    import networkx as nx
+
+    prog = ctx.prog
+    R = roles_of(prog)
+    stats = {}
+    for fn in (R.optimize, R.poll_step, R.init_mesh):
+        stats[fn.short] = loop_path_stats(prog, fn, cap=10000)
+    ctx.extra["acyclic_paths_through_loop_bodies"] = stats
+    ss = R.search_step
+    cfg = cfg_of(ss)
+    inc = [s for t, v, s, k in iter_stores(ss.node) if state_key(t) == ("OS", "search_count") and k == "aug"]
+    ctx.rule("T1", "thorough: every enumerated path through the search step passes search_count += 1", floor=1)
+    if inc:
+        n = cfg.node_of(inc[0]).id
+        total = bad = 0
+        for p in nx.all_simple_paths(cfg.g, cfg.entry.id, cfg.exit.id):
+            total += 1
+            if n not in p:
+                bad += 1
+            if total >= 10000:
+                break
+        ctx.extra["search_step_paths_enumerated"] = total
+        ctx.check(bad == 0, ss, inc[0], f"{total} entry->exit paths of the search step all pass the increment", f"{bad} of {total} enumerated paths through the search step skip search_count += 1", construct="search_count increment bypass (path enumeration)")
